@@ -92,6 +92,7 @@ func selfValidate(prop string, r *Result, repo, verif string) {
 		name, kind string
 		prepare    func(dir string) error
 		wantKey    string
+		negative   bool // behaviour-preserving refactoring: the check must stay silent
 	}
 	var jobs []job
 	// seeded changes on file for this property
@@ -126,6 +127,23 @@ func selfValidate(prop string, r *Result, repo, verif string) {
 			return nil
 		}})
 	}
+	// behaviour-preserving refactorings on file (negative examples: any report on them is a false alarm of the checker)
+	rdirs, _ := filepath.Glob(filepath.Join(verif, "refactorings", "*", "patch.diff"))
+	sort.Strings(rdirs)
+	for _, patch := range rdirs {
+		patch := patch
+		jobs = append(jobs, job{name: filepath.Base(filepath.Dir(patch)), kind: "refactoring", negative: true, prepare: func(dir string) error {
+			if err := copySources(repo, dir); err != nil {
+				return err
+			}
+			cmd := exec.Command("git", "apply", patch)
+			cmd.Dir = dir
+			if out, err := cmd.CombinedOutput(); err != nil {
+				return fmt.Errorf("patch does not apply to the current tree: %s", strings.TrimSpace(string(out)))
+			}
+			return nil
+		}})
+	}
 	// reverse repairs
 	for _, k := range loadKnown(knownFile) {
 		if k.Property != prop || k.Status != "fixed" || k.Commit == "" {
@@ -143,7 +161,7 @@ func selfValidate(prop string, r *Result, repo, verif string) {
 	}
 	results := make([]replayResult, len(jobs))
 	var wg sync.WaitGroup
-	sem := make(chan struct{}, 4)
+	sem := make(chan struct{}, 6)
 	for i, j := range jobs {
 		i, j := i, j
 		wg.Add(1)
@@ -171,7 +189,10 @@ func selfValidate(prop string, r *Result, repo, verif string) {
 			} else {
 				res.Keys = keys
 			}
-			if j.wantKey != "" {
+			if j.negative {
+				res.Kind = "refactoring"
+				res.Detected = len(keys) > 0 // here: a false alarm
+			} else if j.wantKey != "" {
 				for _, k := range keys {
 					if k == j.wantKey {
 						res.Detected = true
@@ -190,7 +211,19 @@ func selfValidate(prop string, r *Result, repo, verif string) {
 	wg.Wait()
 	det := 0
 	var missed []string
+	var falseAlarms []string
+	nNeg := 0
 	for _, x := range results {
+		if x.Kind == "refactoring" {
+			if x.Note != "" && !x.Detected {
+				continue // does not apply to this tree any more
+			}
+			nNeg++
+			if x.Detected {
+				falseAlarms = append(falseAlarms, x.Name)
+			}
+			continue
+		}
 		if x.Detected {
 			det++
 		} else {
@@ -198,11 +231,14 @@ func selfValidate(prop string, r *Result, repo, verif string) {
 		}
 	}
 	r.Extra["self_validation"] = map[string]interface{}{
-		"what":     "replay of the positive examples on file for this property (seeded changes by independent sub-agents, parents of fix commits) through the same check, each on a scratch copy of the sources; not detected = recorded checker gap, never an alarm",
-		"replayed": len(results),
-		"detected": det,
-		"missed":   missed,
-		"results":  results,
+		"what":                     "replay of the positive examples on file for this property (seeded changes by independent sub-agents, parents of fix commits) through the same check, each on a scratch copy of the sources; not detected = recorded checker gap, never an alarm",
+		"replayed":                 len(results) - nNeg,
+		"detected":                 det,
+		"missed":                   missed,
+		"negative_examples":        nNeg,
+		"negative_examples_what":   "behaviour-preserving refactorings written by independent sub-agents (/verif/refactorings), applied to a scratch copy: the check must report nothing on them",
+		"false_alarms_on_negative": falseAlarms,
+		"results":                  results,
 	}
-	fmt.Printf("%s: self-validation replayed %d positive examples, %d detected, missed %v\n", prop, len(results), det, missed)
+	fmt.Printf("%s: self-validation replayed %d positive examples, %d detected, missed %v; %d refactorings, false alarms %v\n", prop, len(results)-nNeg, det, missed, nNeg, falseAlarms)
 }
